@@ -40,12 +40,43 @@ pub fn hosts() -> Vec<Host> {
     ]
 }
 
+/// One host per (tool, game) that `hosts()` does not already cover: every game truth supports for ANM, STD, MSG and
+/// old-format ECL.  They get a reduced program set (see `run`); the point is that every game's format parameters
+/// (header layout, instruction layout, opcode width, built-in signatures and intrinsics) take part in a round trip.
+pub fn all_game_hosts() -> Vec<Host> {
+    let have: BTreeSet<(Kind, Game)> = hosts().iter().map(|h| (h.tool.kind, h.tool.game)).collect();
+    let games = ["th06", "th07", "th08", "th09", "th095", "th10", "alcostg", "th11", "th12", "th125", "th128", "th13", "th14", "th143", "th15", "th16", "th165", "th17", "th18", "th185"];
+    let mut v = vec![];
+    for gname in games {
+        let game: Game = gname.parse().unwrap();
+        for kind in [Kind::Anm, Kind::Std, Kind::Msg, Kind::Ecl] {
+            if kind == Kind::Ecl && game > Game::Th095 { continue; }
+            if have.contains(&(kind, game)) { continue; }
+            let (pfx, magic) = match kind { Kind::Anm => ("anm", "!anmmap"), Kind::Std => ("std", "!stdmap"), Kind::Msg => ("msg", "!msgmap"), _ => ("ecl", "!eclmap") };
+            let name: &'static str = Box::leak(format!("{pfx}-{gname}").into_boxed_str());
+            let regs = match kind {
+                Kind::Anm if game >= Game::Th07 => Some(([10000, 10001, 10002, 10003, 10008, 10009], [10004, 10005, 10006, 10007])),
+                Kind::Ecl => Some(match game {
+                    Game::Th06 => ([-10001, -10002, -10003, -10004, -10009, -10010], [-10005, -10006, -10007, -10008]),
+                    Game::Th07 => ([10000, 10001, 10002, 10003, 10012, 10013], [10004, 10005, 10006, 10007]),
+                    Game::Th095 => ([10000, 10001, 10002, 10003, 10004, 10005], [10008, 10009, 10010, 10011]),
+                    _ => ([10000, 10001, 10002, 10003, 10004, 10005], [10016, 10017, 10018, 10019]),
+                }),
+                _ => None,
+            };
+            let byte_opcodes = game == Game::Th06 && kind == Kind::Anm || kind == Kind::Msg || kind == Kind::Std;
+            v.push(Host { name, tool: Tool::new(kind, game), magic, regs, op_base: if byte_opcodes { 100 } else { 2000 }, has_jump: kind != Kind::Msg, has_difficulty: kind == Kind::Ecl, strings: kind == Kind::Msg });
+        }
+    }
+    v
+}
+
 const MARKERS: [(&str, &str); 11] = [("m0", ""), ("mS", "S"), ("mf", "f"), ("mSS", "SS"), ("mSf", "Sf"), ("mfS", "fS"), ("mff", "ff"), ("mSSS", "SSS"), ("mfff", "fff"), ("mSfSf", "SfSf"), ("mz", "z(bs=4)")];
 
 impl Host {
     /// marker signature for this host (TH06-TH09 STD needs exactly 12 bytes of arguments per instruction)
     fn marker_sig(&self, sig: &str) -> Option<String> {
-        if self.name != "std06" { return Some(sig.to_string()); }
+        if !(self.tool.kind == Kind::Std && self.tool.game < Game::Th095) { return Some(sig.to_string()); }
         if sig.len() > 3 || sig.contains('z') { return None; }
         Some(format!("{sig}{}", "_".repeat(3 - sig.len())))
     }
@@ -230,18 +261,22 @@ pub fn run(tier: &str) -> Report {
     }
     let mut seeds: Vec<Seed> = vec![];
     let mut compile_stats: BTreeMap<String, (u64, u64)> = BTreeMap::new();
-    for host in hosts() {
+    let full_hosts = hosts().len();
+    for (host_ix, host) in hosts().into_iter().chain(all_game_hosts()).enumerate() {
+        let reduced = host_ix >= full_hosts;
         let user_map = host.user_mapfile();
         let sigs_map = host.sigs_only_mapfile();
         let mut bodies: Vec<(String, &'static str)> = vec![];
         if host.regs.is_some() {
-            for (b, fam) in &reg_bodies {
+            for (bi, (b, fam)) in reg_bodies.iter().enumerate() {
+                // the all-games hosts take every 40th generated body (quick) / every 8th (thorough)
+                if reduced && bi % (if thorough { 8 } else { 40 }) != 0 { continue; }
                 // difficulty syntax only where the language has it
                 if !host.has_difficulty && (b.contains("{\"") || b.contains(':') && b.contains("(") && crate::c01::has_switch(b)) { continue; }
                 bodies.push((b.clone(), fam));
             }
         }
-        if host.has_difficulty {
+        if host.has_difficulty && !reduced {
             // runs of 2-3 consecutive same-opcode instructions under difficulty labels (contiguous masks, masks with
             // holes, overlapping and non-adjacent masks, aux-style high bits): the decompiler's switch recognition
             let labels = ["0", "1", "01", "02", "13", "3", "23", "012", "0123", "4", "*"];
@@ -255,7 +290,7 @@ pub fn run(tier: &str) -> Report {
                 }}
             }}
         }
-        if host.has_difficulty {
+        if host.has_difficulty && !reduced {
             // the same runs with a time label inside (a folded statement has only one time): all triples of pairwise
             // disjoint masks, label before the 2nd or the 3rd instruction
             let labels = ["0", "1", "01", "02", "13", "3", "23", "012", "2", "12", "123"];
@@ -267,7 +302,7 @@ pub fn run(tier: &str) -> Report {
             }}}
         }
         let mut seen_plain = BTreeSet::new();
-        let (pn, pb) = if thorough { (4, 4) } else { (3, 3) };
+        let (pn, pb) = if reduced { if thorough { (3, 3) } else { (2, 2) } } else if thorough { (4, 4) } else { (3, 3) };
         for n in 1..=pn { explore_dfs(pb, 100_000, &|ch| gen_plain(ch, &host, n), &mut |_, b| { if seen_plain.insert(b.clone()) { bodies.push((b, "plain")); } }); }
         rep.transitions += bodies.len() as u64;
         let results = par_map(&bodies, Some(deadline), |_, (b, _)| {
@@ -400,7 +435,7 @@ pub fn replay(detail: &serde_json::Value) -> i32 {
             }
         }
         match found { Some(s) => s, None => { println!("cannot rebuild seed"); return 2; } }
-    } else if let Some(h) = hosts().into_iter().find(|h| h.name == host_name) {
+    } else if let Some(h) = hosts().into_iter().chain(all_game_hosts()).find(|h| h.name == host_name) {
         let src = detail["source"].as_str().unwrap_or("").to_string();
         let um = h.user_mapfile();
         let c = drive::compile(h.tool, src.as_bytes(), &CompileOpts { mapfiles: vec![&um], ..Default::default() });
